@@ -324,10 +324,13 @@ impl GmWorld {
                 self.xen_live.remove(i);
             } else {
                 rec.fail("C17", &format!("{}/xen-unmap-without-map", op), &format!("{} {:?}", line, r));
+                // the same event read as ownership (C12): what is given back is not what was taken (wrong length)
+                rec.fail("C12", &format!("{}/xen-unmap-without-map", op), &format!("{} {:?}", line, r));
             }
         }
         if !creating && self.xen_live != before {
             rec.fail("C17", &format!("{}/xen-window-not-released", op), &format!("{} live={:?}", line, self.xen_live));
+            rec.fail("C12", &format!("{}/xen-window-not-released", op), &format!("{} live={:?}", line, self.xen_live));
             self.xen_live = before;
         }
         *rec.notes.entry("xen_ioctls".into()).or_default() += log.len();
